@@ -32,7 +32,7 @@ ASSUMPTIONS = ['slices are the resolved form every caller passes: 0 <= start < s
                'X values and spacing are exactly representable in codes 68/73; frame spacing units equal the depth units, or are one of 4 pairs with an integral factor (INCH/.1IN, IN/.1IN, FEET/INCH, FEET/.1IN; X compared to 1e-9 relative)',
                'the empty channel subset is exercised for explicit-X log passes (the X channel alone is loaded); with implied X an empty subset reads nothing and is not asserted']
 SHARDS = {'quick': 4, 'thorough': 16}
-REQUIRED_CLASSES = {'implied-x': 1, 'file-read-before-indexing': 1, 'channel-subset-with-index>=8': 1, 'table-between-the-data-records-of-a-pass': 1, 'implied-x-spacing-in-other-units-than-x': 1, 'implied-x-in-units-unknown-to-the-unit-table': 1, 'explicit-x': 1, 'load-step>1': 1, 'load-spans>=2-records': 1, 'channel-subset-with-gap': 1,
+REQUIRED_CLASSES = {'implied-x': 1, 'implied-x-negative-frame-spacing-entry': 1, 'file-read-before-indexing': 1, 'channel-subset-with-index>=8': 1, 'table-between-the-data-records-of-a-pass': 1, 'implied-x-spacing-in-other-units-than-x': 1, 'implied-x-in-units-unknown-to-the-unit-table': 1, 'explicit-x': 1, 'load-step>1': 1, 'load-spans>=2-records': 1, 'channel-subset-with-gap': 1,
                     'short-last-record': 1, 'multi-sample-channel': 1, 'dipmeter-channel': 1, 'tif': 1, '>=2-log-passes': 1,
                     'load-enters-record-after-first-frame': 1, 'up-log': 1, 'empty-channel-subset': 1,
                     'type-0-and-type-1-log-pass-interleaved': 1, 'log-pass-without-data-records': 1}
@@ -108,6 +108,7 @@ class FileState:
         for pm in self.passes:
             lp = pm.lp
             cc.cls('implied-x', lp['indirect'])
+            cc.cls('implied-x-negative-frame-spacing-entry', lp['indirect'] and any(b['type'] == 8 and b['value'] < 0 for b in lp['blocks']))
             cc.cls('table-between-the-data-records-of-a-pass', bool(lp.get('mid_tables')))
             cc.cls('implied-x-spacing-in-other-units-than-x', lp['indirect'] and lp.get('spacing_units', lp['units']) != lp['units'])
             cc.cls('implied-x-in-units-unknown-to-the-unit-table', lp['indirect'] and bytes(lp['units']) in (b'SEC ', b'MTR ', b'HRS ', b'DEG '))
